@@ -20,6 +20,10 @@ func main() {
 		dumpCmd(os.Args[2:])
 	case "fn":
 		fnCmd(os.Args[2:])
+	case "check":
+		checkCmd(os.Args[2:])
+	case "sync":
+		syncCmd()
 	default:
 		fmt.Fprintln(os.Stderr, "unknown command", os.Args[1])
 		os.Exit(2)
@@ -168,5 +172,32 @@ func explainObl(cx *Ctx, o *Obligation, work string) {
 			}
 			fmt.Printf("        conjunct %d: %s: %s\n", i, r.status, txt)
 		}
+	}
+}
+
+// syncCmd copies the contract mirrors into the repository as comment-only,
+// build-tag guarded Go files.
+func syncCmd() {
+	dir := filepath.Join(verifDir(), "contracts")
+	ents, _ := os.ReadDir(dir)
+	for _, e := range ents {
+		if !strings.HasSuffix(e.Name(), ".contracts") {
+			continue
+		}
+		name := strings.TrimSuffix(e.Name(), ".contracts")
+		rel := strings.ReplaceAll(name, "_", "/")
+		if name == "kanzi" {
+			rel = ""
+		}
+		b, err := os.ReadFile(filepath.Join(dir, e.Name()))
+		if err != nil {
+			continue
+		}
+		dst := filepath.Join(repoDir(), "v2", rel, "contracts_verif.go")
+		if err := os.WriteFile(dst, b, 0o644); err != nil {
+			fmt.Fprintln(os.Stderr, err)
+			os.Exit(1)
+		}
+		fmt.Println("wrote", dst)
 	}
 }
